@@ -33,4 +33,10 @@ OBLIGATIONS = [
              "sections tile the share, v1 iff everything < 2^32, reader parses the writer's header (field positions/widths), reader's block range == writer's block range, "
              "delivered block is the checked block",
         outside="write batching (_WriteBuffer), hash-section contents, ReadBucketProxy (legacy reader)"),
+    chx("guess_vs_real", "C01_h", "h_guess_vs_real",
+        bounds={"quick": {"size_max": 2**40, "seg_max": 2**24, "n_max": 16}, "thorough": {"size_max": 2**48, "seg_max": 2**32, "n_max": 16}},
+        cases={"quick": [{"k": i, "_label": "k%d" % i} for i in (1, 3)], "thorough": [{"k": i, "_label": "k%d" % i} for i in (1, 2, 3, 5, 16)]},
+        timeout={"quick": 120, "thorough": 1200},
+        desc="DownloadNode._build_guessed_tables with an ARBITRARY guess followed by _parse_and_store_UEB: every table the reader uses afterwards "
+             "(ciphertext hash tree size, its leaf count used by get_desired_ciphertext_hashes, roots) reflects the real segment count, for every real segnum"),
 ]
